@@ -107,7 +107,10 @@ def run_history(seed, k, res):
         if u < 0.35 or not fitted:
             # ---- fit and check the data are reproduced
             ops.append("fit")
-            ok, ie, nj, lr, cn = M.interpolate_mini_models_svd(verbose=True)
+            # the flag combinations the solver itself uses (verbose only with diagnostics on, get_chg_J only with auto-detected restarts)
+            fl = int(rng.integers(0, 4))
+            ok, ie, nj, lr, cn = M.interpolate_mini_models_svd(verbose=bool(fl & 1), get_chg_J=bool(fl & 2))
+            st["fit_flags|verbose=%d,get_chg_J=%d" % (fl & 1, (fl >> 1) & 1)] = st.get("fit_flags|verbose=%d,get_chg_J=%d" % (fl & 1, (fl >> 1) & 1), 0) + 1
             if not ok:
                 st["fit_reported_failure"] = st.get("fit_reported_failure", 0) + 1
                 return
